@@ -1998,7 +1998,9 @@ export class ObjectRuntype extends BaseRuntype {
     const sortedKeys = Object.keys(this.properties).sort();
     const props = sortedKeys.map((k) => {
       const it = this.properties[k];
-      return describeObjectMember(ctx, k, it);
+      // property names that are not identifiers have to be quoted
+      const keyText = /^[A-Za-z_$][A-Za-z0-9_$]*$/.test(k) ? k : JSON.stringify(k);
+      return describeObjectMember(ctx, keyText, it);
     });
 
     const indexProps = this.indexedPropertiesParser.map(({ key, value }) =>
